@@ -121,15 +121,26 @@ def anchor (sub : List Char) : Option (Nat × Nat) :=
     | none => none
   | _ => none
 
+/-- the pieces of a text between its `M` characters (the first piece is what precedes the first `M`) -/
+def splitOnM : List Char → List (List Char)
+  | [] => [[]]
+  | c :: r =>
+    if c = 'M' then [] :: splitOnM r
+    else match splitOnM r with
+      | p :: ps => (c :: p) :: ps
+      | [] => [[c]]
+
 /-- sub-paths of a `d` attribute: the pieces after each absolute `M` -/
-def subPaths (d : String) : Option (List (List Char)) :=
-  if d.isEmpty then some [] else
-  match d.toList with
+def subPathsL (d : List Char) : Option (List (List Char)) :=
+  match d with
+  | [] => some []
   | 'M' :: _ =>
-    let pieces := (d.splitOn "M").map (·.toList)
+    let pieces := splitOnM d
     -- first piece is the empty text before the first M
     if (pieces.drop 1).any (fun p => p.any (fun c => c == 'm')) then none else some (pieces.drop 1)
   | _ => none
+
+def subPaths (d : String) : Option (List (List Char)) := subPathsL d.toList
 
 def cellsOf (d : String) : Option (List (Nat × Nat)) :=
   match subPaths d with
